@@ -40,6 +40,12 @@ def ensure_registered():
     class Ext21(object):
         pass
 
+    # an extension whose every property is optional with a default: written without its defaults it is an empty object
+    @stix2.v21.CustomExtension("x-stixmon-flags-ext", [("verified", P.BooleanProperty(default=lambda: False)), ("rank", P.IntegerProperty(default=lambda: 0)),
+                                                       ("remark", P.StringProperty())])
+    class Flags21(object):
+        pass
+
     @stix2.v21.CustomMarking("x-stixmon-marking", [("classification", P.StringProperty(required=True)), ("rank", P.IntegerProperty())])
     class Marking21(object):
         pass
@@ -146,6 +152,10 @@ def file_with_ext(g):
         ext["x-stixmon-ext"]["note"] = V.string(rng, g.hostile)
     if rng.random() < 0.5:
         ext["x-stixmon-ext"]["seen_at"] = g.ts_value({"precision": "any", "constraint": "exact"})
+    if rng.random() < 0.4:
+        ensure_registered()
+        # only default values (or nothing at all): the compact form of this extension is {}
+        ext["x-stixmon-flags-ext"] = rng.choice([{"verified": False}, {"verified": False, "rank": 0}, {"rank": 0}, {"verified": True}, {"remark": "r", "rank": 0}])
     o["extensions"] = ext
     return o
 
